@@ -322,7 +322,10 @@ def body_of(spec):
 
 
 def work(spec):
-    ex = Explorer(max_paths=400000, budget_s=1500, max_depth=2000)
+    # caps per work item: the unchanged tree needs a few thousand paths per item; a change that makes responses pile up multiplies the
+    # histories -- then the item stops as inconclusive after the cap instead of running for a quarter of an hour
+    big = spec.get("tier") == "thorough"
+    ex = Explorer(max_paths=400000 if big else 40000, budget_s=1500 if big else 150, max_depth=2000)
     ex.run(body_of(spec))
     res = worker_result(ex, samples=[{"kind": spec["kind"], "first": spec.get("first"), "state": spec.get("state"), "paths": ex.stats.paths}])
     for c in res["cexs"]:
@@ -360,6 +363,8 @@ def main(tier, seed):
     specs.append({"kind": "concurrent", "napps": 3})
     if tier == "thorough":
         specs.append({"kind": "concurrent", "napps": 4})
+    for sp_ in specs:
+        sp_["tier"] = tier
     rep.bounds = ["(c) 3 (thorough 4) applications whose subroutines suspend at a wait instruction: every order of starting, delivering and resuming",
                   f"(a) all histories of {depth} operations over {napps} applications (unit modules of 1..2 qubits), operations: init, stop, "
                   "qalloc v, qfree v, classical write + ret_reg/ret_arr, recv_epr + keep response for a free virtual qubit; faulting "
